@@ -1,0 +1,43 @@
+//go:build verif
+
+// Clauses added after the third round of seeded changes (sub-agents, property text only) showed what the contracts
+// did not yet pin down. Each block names the change it answers. Comment-only file.
+package absnfs
+
+// C09 - HandleCall validated MOUNT NULL/DUMP/EXPORT calls against a private copy of the policy with Secure cleared.
+// The admission decision is taken against the live policy snapshot itself, not something derived from it:
+//@ also NFSProcedureHandler.HandleCall
+//@ callassert ValidateAuthentication : [validated-against-the-live-policy] {C09} arg1 == curPolicy(h.server.handler)
+
+// C10 - a fast path in ValidateAuthentication returned before applySquashing for "ordinary" users under root squash,
+// so auxiliary gid 0 passed through. What the handlers see after an admitted AUTH_SYS call, stated on the function
+// that produces it:
+//@ also ValidateAuthentication
+//@ ensures [authsys-root-squash-leaves-no-zero] {C10} result.Allowed && ctx.Credential.Flavor == 1 && lower(policy.Squash) == "root" ==> result.UID != 0 && result.GID != 0 && forall(i, 0, len(ctx.AuthSys.AuxGIDs), ctx.AuthSys.AuxGIDs[i] != 0)
+//@ ensures [authsys-all-squash-is-nobody] {C10} result.Allowed && ctx.Credential.Flavor == 1 && lower(policy.Squash) == "all" ==> result.UID == 65534 && result.GID == 65534 && forall(i, 0, len(ctx.AuthSys.AuxGIDs), ctx.AuthSys.AuxGIDs[i] == 65534)
+
+// C16 - the connection loop folded EnableRateLimiting into the limiter it captured when the connection started, so a
+// connection opened before an update that switches rate limiting off kept being refused. A request is put to the
+// limiter only while the policy in force when the request is handled says so:
+//@ also Server.handleConnectionLoop
+//@ callassert RateLimiter.AllowRequest : [limited-only-while-the-live-policy-says-so] {C16} s.handler != nil && curPolicy(s.handler).EnableRateLimiting
+
+// C19 - NewRateLimiter registered the global bucket as the per-IP bucket of the empty address, and the connection
+// loop took its per-connection key from connCount (reused after a close) instead of the monotonic counter: in both,
+// one client's refused traffic drains a bucket that is not its own. A new limiter has no per-IP bucket yet (every
+// later one is made fresh by PerIPLimiter.Allow, which keeps rlPerIP), and the per-connection key is the value this
+// connection drew from the monotonic counter:
+//@ func NewPerIPLimiter
+//@ prop C19
+//@ ensures [empty] result != nil && fresh(result) && result.limiters != nil && len(result.limiters) == 0 && result.rate == rate && result.burst == burst
+//@ also NewRateLimiter
+//@ ensures [no-per-ip-bucket-yet] {C19} result.perIPLimiter != nil && len(result.perIPLimiter.limiters) == 0
+//@ also Server.handleConnectionLoop
+//@ callassert atomic.Uint64.Add : [draws-a-new-connection-number] {C19} arg1 == 1
+//@ callassert RateLimiter.AllowRequest : [keyed-by-this-connection] {C19} arg2 == connID
+
+// C28 - a debug log line in recordMarkingConnIO.ReadCall read a word from the reader the argument slice is computed
+// from, so with Debug on every procedure got its arguments shifted by four bytes. The body handed to the handler is
+// the record minus exactly the call header DecodeRPCCall consumed:
+//@ also recordMarkingConnIO.ReadCall
+//@ callassert bytes.NewReader#2 : [body-is-the-record-after-the-call-header] {C28} call != nil && len(arg0) == len(data) - 40 - roundup4(len(call.Credential.Body)) - roundup4(len(call.Verifier.Body))
